@@ -110,3 +110,34 @@ def chi_dem(errors, svec):
         if len(s & svec) & 1:
             v *= 1 - 2 * p
     return v
+
+
+def flatten_components(instrs):
+    """like flatten, but every error is (p, [component symptom sets]) with the suggested decomposition kept"""
+    errors = []
+    state = {'doff': 0}
+
+    def go(l):
+        for i in l:
+            if i.kind == 'repeat':
+                for _ in range(i.reps):
+                    go(i.body)
+            elif i.kind == 'error':
+                comps = [set()]
+                for t in i.targets:
+                    if t == '^':
+                        comps.append(set())
+                        continue
+                    if t[0] == 'D':
+                        t = 'D%d' % (int(t[1:]) + state['doff'])
+                    if t in comps[-1]:
+                        comps[-1].remove(t)
+                    else:
+                        comps[-1].add(t)
+                errors.append((i.args[0], [frozenset(c) for c in comps]))
+            elif i.kind == 'shift_detectors':
+                if i.targets:
+                    state['doff'] += int(i.targets[0])
+
+    go(instrs)
+    return errors
